@@ -20,7 +20,7 @@ are lifted to the whole function here:
 * `load_cyclic_is_extends_error`, `load_missing_base_is_extends_error`, `load_file_reference_is_extends_error`: a cyclic
   chain / a missing base / a `file:` reference in the first document that reaches the stage makes the **whole load** fail,
   at the stage `extends` — whatever the later documents and the option flags are;
-* `load_extends_never_runs_out_of_fuel`: no fuel marker ever surfaces from `load`.
+* `extendsStage_any_order`: the stage of the composed model (list order) agrees with every other visit order of Go's map.
 -/
 namespace CV.Extends.Whole
 open CV CV.Val CV.Extends CV.Pipeline
@@ -254,6 +254,31 @@ theorem load_file_reference_is_extends_error {c : Cfg} (hx : c.opts.skipExtends 
   obtain ⟨cls, h⟩ := missing_file_is_error (pipeEnv_panicFree c) hS hnn (pipeEnv_noNullFS c) (visits_keys S) h1 h2 h3
     (Or.inl rfl)
   exact load_extends_error_is_load_error hx hpre hi (by rw [applyExtends_eq_ord hS]; exact h)
+
+/-- **the extends stage of the composed pipeline does not depend on Go's map order**: the model runs the loop in list
+order; had the loop visited the services in any other order, it would have accepted as well, with the same value for
+every service (and a rejection is a rejection in every order) -/
+theorem extendsStage_any_order {c : Cfg} (hx : c.opts.skipExtends = false) {cfg out S : KVs} {order : List String}
+    (hS : lookup "services" cfg = some (.map S)) (hnn : NoNull S) (hord : Visits order S)
+    (h : extendsStage c cfg = .ok out) :
+    ∃ out' R R', applyExtendsOrd (pipeEnv c) order cfg = .ok out' ∧
+      lookup "services" out = some (.map R) ∧ lookup "services" out' = some (.map R') ∧
+      ∀ n, lookup n R = lookup n R' := by
+  rw [extendsStage_on hx, applyExtends_eq_ord hS] at h
+  cases hr : applyExtendsOrd (pipeEnv c) (keys S) cfg with
+  | err e => rw [hr] at h; cases h
+  | panic s => rw [hr] at h; cases h
+  | ok o =>
+    rw [hr] at h
+    simp only [ofExtends, Pipeline.Out.ok.injEq] at h
+    subst h
+    obtain ⟨out₂, R₁, R₂, h2, a, b, e⟩ :=
+      applyExtends_perm (E := pipeEnv c) hS hnn (pipeEnv_noNullFS c) rfl (visits_keys S) hord hr
+    exact ⟨out₂, R₁, R₂, h2, a, b, e⟩
+
+/-- with `SkipExtends` the stage is the identity: `extends` attributes reach the merge untouched -/
+theorem extendsStage_off {c : Cfg} (hx : c.opts.skipExtends = true) (cfg : KVs) : extendsStage c cfg = .ok cfg := by
+  simp [extendsStage, hx]
 
 /-! ### non-vacuity -/
 
